@@ -70,7 +70,18 @@ func (j *JApi) ToJsonIndent() ([]byte, error) {
 	return j.Catalog().ToJsonIndent()
 }
 
-func (j *JApi) ToOpenAPIJson() ([]byte, error) {
+// recoverOpenAPIError turns a panic of the OpenAPI exporter (a catalog that OpenAPI cannot represent, e.g. a user
+// type with the "empty" notation) into an error of the export.
+func recoverOpenAPIError(b *[]byte, err *error) {
+	if r := recover(); r != nil {
+		*b = nil
+		*err = fmt.Errorf("the catalog cannot be exported to OpenAPI: %v", r)
+	}
+}
+
+func (j *JApi) ToOpenAPIJson() (b []byte, e error) {
+	defer recoverOpenAPIError(&b, &e)
+
 	o, err := openapi.NewOpenAPI(j.Catalog())
 	if err != nil {
 		return nil, err
@@ -78,7 +89,9 @@ func (j *JApi) ToOpenAPIJson() ([]byte, error) {
 	return json.Marshal(o)
 }
 
-func (j *JApi) ToOpenAPIJsonIndent() ([]byte, error) {
+func (j *JApi) ToOpenAPIJsonIndent() (b []byte, e error) {
+	defer recoverOpenAPIError(&b, &e)
+
 	o, err := openapi.NewOpenAPI(j.Catalog())
 	if err != nil {
 		return nil, err
